@@ -16,3 +16,46 @@ EXPLANATION = ('create_trajectory_row under contract for any state: time/distanc
 NOT_DECIDED = ['numeric accuracy of libm pow/atan/atan2 themselves (A-LIBM)',
                'that rows returned by should_record for interpolated range rows carry the interpolated state: C03/C11 contracts']
 EXTRA = []
+import time  # noqa: E402
+
+EXTRA = ['bounded_spin_drift_history']
+
+
+def bounded_spin_drift_history(tier, seed):
+    """spin drift is present with twist and bullet dimensions, signed by the twist direction, and absent without them -
+    also on a calculator that has just computed a shot that had them"""
+    from pyvc.bounded import pkg, mk
+    from pyvc.scan import result
+    P = pkg()
+    t0 = time.time()
+    bad = None
+
+    def shot(twist, dims=True):
+        dm = P.DragModel(0.3, P.TableG7, P.Unit.Grain(168), P.Unit.Inch(0.308), P.Unit.Inch(1.2)) if dims else \
+            P.DragModel(0.3, P.TableG7)
+        return P.Shot(P.Weapon(P.Unit.Inch(2), P.Unit.Inch(twist)), P.Ammo(dm, P.Unit.FPS(2600)))
+
+    def windage(calc, s):
+        return calc.fire(s, P.Unit.Yard(500), P.Unit.Yard(500)).trajectory[-1].windage >> P.Unit.Inch
+    calc = P.Calculator()
+    r, l = windage(calc, shot(12)), windage(calc, shot(-12))
+    if not (r > 0.5 and abs(r + l) < 1e-9):
+        bad = f'right-hand twist drifts {r} in, left-hand twist {l} in at 500 yd (expected opposite, about 2 in)'
+    for name, s in (('no twist', shot(0)), ('no bullet dimensions', shot(12, dims=False))):
+        windage(calc, shot(12))                      # history: a shot with spin data first
+        w = windage(calc, s)
+        if w != 0:
+            bad = f'{name}: windage {w} in at 500 yd without wind on a calculator used before for a spinning bullet'
+    # same rifle and load, another atmosphere: the stability correction is that of the CURRENT atmosphere
+    hot = P.Atmo(altitude=P.Unit.Foot(5000), temperature=P.Unit.Fahrenheit(100), pressure=P.Unit.InHg(24))
+    s_std, s_hot = shot(12), shot(12)
+    s_hot.atmo = hot
+    windage(calc, s_std)
+    w_used, w_fresh = windage(calc, s_hot), windage(P.Calculator(), s_hot)
+    if w_used != w_fresh:
+        bad = (f'same load in another atmosphere: windage {w_used} in on a calculator used before in standard atmosphere, '
+               f'{w_fresh} in on a fresh one')
+    return result('bounded:spin-drift-history', [mk('spin-drift-signed-by-twist-absent-without-twist-or-dimensions', bad is None,
+                  '168 gr .308 at 2600 fps, 500 yd, no wind: +/- drift for right/left twist; exactly zero windage without twist '
+                  'or without bullet dimensions, computed on a calculator that has just fired a spinning bullet', 4, t0, bad)],
+                  t0, props=('C05',))
